@@ -529,9 +529,27 @@ fn canon_state(c: &Ctx) -> String {
     }
     mems.push(format!("{}{{{}}}", sv.active_memtable.id(), show_ents(&sv.active_memtable.iter().map(|v| Ent::of_internal(&v)).collect::<Vec<_>>())));
     let v = va::version_of(&sv);
+    let blobs_folder = c.dir.path().join("blobs");
     let tabs = v
         .iter_tables()
-        .map(|t| format!("{}g{}[{}..{}]{{{}}}", t.id(), t.global_seqno(), hex(t.metadata.key_range.min()), hex(t.metadata.key_range.max()), show_ents(&table_entries(t))))
+        .map(|t| {
+            // pointers are shown with the bytes they resolve to (the model's indirections carry their value)
+            let ents: Vec<Ent> = table_entries(t)
+                .into_iter()
+                .map(|mut e| {
+                    if e.vt == 4 {
+                        match va::resolve_indirection(&v, &blobs_folder, &e.key, &e.val) {
+                            Ok(Some(val)) => {
+                                e.val = val;
+                            }
+                            _ => {} // dangling / unreadable: stays `I`, which the model never predicts
+                        }
+                    }
+                    e
+                })
+                .collect();
+            format!("{}g{}[{}..{}]{{{}}}", t.id(), t.global_seqno(), hex(t.metadata.key_range.min()), hex(t.metadata.key_range.max()), show_ents(&ents))
+        })
         .collect::<Vec<_>>()
         .join("+");
     format!("ctr={} vis={} hist={} mems={} tables={}", c.seqno.get(), c.vis.get(), hs, mems.join("+"), tabs)
@@ -843,7 +861,8 @@ fn run_case_inner(case: &Case, runner: &mut Runner) -> Outcome {
     let mut out = Outcome { disagreement: None, oracle_failures: vec![], steps: 0, counters: BTreeMap::new(), nontrivial: false };
     let filter_arg = cfg.filter_seed.map_or("none".to_string(), |s| s.to_string());
     let _ = filter_arg;
-    if let Some(reply) = runner.ask("new levels=7") {
+    let new_req = match cfg.blob { Some((th, _)) => format!("new levels=7 blob={th}"), None => "new levels=7".to_string() };
+    if let Some(reply) = runner.ask(&new_req) {
         let want = format!("digest={}", digest_of(&canon_state(&c)));
         if !reply.starts_with(&want) {
             out.disagreement = Some(format!("initial state differs: real {} model {}", canon_state(&c), runner.ask("dump").unwrap_or_default()));
@@ -1161,7 +1180,8 @@ fn run_case_inner(case: &Case, runner: &mut Runner) -> Outcome {
         }
     }
     // non-triviality: at least one compaction that changed the version and ≥ 2 levels/runs populated at some point
-    out.nontrivial = out.counters.get("compaction.merge").copied().unwrap_or(0) + out.counters.get("compaction.move").copied().unwrap_or(0) > 0 && out.counters.get("op.flush").copied().unwrap_or(0) >= 2;
+    let g = |k: &str| out.counters.get(k).copied().unwrap_or(0);
+    out.nontrivial = (g("compaction.merge") + g("compaction.move") > 0 && g("op.flush") >= 2) || (g("op.fifo") > 0 && g("flush.created_tables") >= 2);
     out
 }
 
